@@ -179,8 +179,8 @@ def run_lines(kind, stage, lines, shards=None):
         return []
     args = [HARNESS, "run", stage] if kind == "impl" else ([HARNESS + "-race", "run", stage] if kind == "race" else [DRIVER, stage])
     if shards is None:
-        shards = NPROC if len(lines) >= 400 else 1
-    if stage == "cli":
+        shards = NPROC if (len(lines) >= 400 or (stage in ("cli", "oracle-C16") and len(lines) >= 32)) else 1
+    if stage in ("cli", "oracle-C16"):
         shards = min(shards, 8)
     k = max(1, (len(lines) + shards - 1) // shards)
     procs = []
